@@ -55,12 +55,15 @@ def gen_cases(tier, seed):
             continue
         for strict in (0, 1):
             for std in ((2020,) if inv.callid != 2 else (2006, 2013, 2020)):
-                for sds in ((2,) if inv.callid != 29 else (1, 2, 3, 4)):
+                # (snapshot DID size, configured extended data size): a size given with the call wins over the configured one
+                for sds, esz in ([(2, None)] if inv.callid != 29 else [(1, None), (2, None), (3, None), (4, None)] + ([(2, 7), (2, 1)] if inv.args[18] == 1 else [])):
                     cfgv = list(cl.DEFAULT_CFG)
                     for s, v in inv.cfg.items():
                         cfgv[s] = v
                     cfgv[cl.STD] = std
                     cfgv[cl.SNAP_DID] = sds
+                    if esz is not None:
+                        cfgv[cl.EXT_SIZE] = esz
                     if strict:
                         cfgv[cl.TOL_PAD] = 0
                         cfgv[cl.IGN_ZERO] = 0
